@@ -2,7 +2,7 @@
     allocator theorems (no reuse while referenced, no leak, fuel suffices). *)
 From Coq Require Import List NArith ZArith Bool Arith Lia Permutation.
 From Coq Require Import ZifyN ZifyNat ZifyBool.
-From BBS Require Import Store.Model Store.Wf Store.P04Base Store.P04Prim Store.P04Fbs Store.P04Ops
+From BBS Require Import Store.Model Store.Wf Run.RStore Store.P04Base Store.P04Prim Store.P04Fbs Store.P04Ops
   Store.P04Step Store.P04StepOps.
 Import ListNotations.
 Local Open Scope nat_scope.
@@ -286,3 +286,20 @@ Proof.
   split; [exact F6|]. split; [exact F7|]. split; [exact F8|].
   intros e. apply (step_ok w W s (Build_Inv _ _ A C ND T) e).
 Qed.
+
+(** the states before and after every event of [run_states] are reachable
+    states (of a prefix of the schedule) *)
+Lemma run_states_reach_gen w : forall es s x, In x (RStore.run_states w s es) ->
+  exists k, fst (fst x) = fst (run w s (firstn k es)) /\ snd (fst x) = fst (run w s (firstn (S k) es)).
+Proof.
+  induction es as [|e t IH]; intros s x; cbn [RStore.run_states]; [intros []|].
+  destruct (step w s e) as [s1 o] eqn:ES. intros [H|H].
+  - subst x. exists 0. cbn [fst snd firstn]. split; [reflexivity|].
+    rewrite run_fst_cons, ES. reflexivity.
+  - destruct (IH s1 x H) as [k [E1 E2]]. exists (S k).
+    rewrite !firstn_cons, !run_fst_cons, ES. cbn [fst]. split; assumption.
+Qed.
+
+Theorem run_states_reach w es x : In x (RStore.run_states w (init_state (w_cfg w)) es) ->
+  exists k, fst (fst x) = reach w (firstn k es) /\ snd (fst x) = reach w (firstn (S k) es).
+Proof. apply run_states_reach_gen. Qed.
